@@ -58,3 +58,23 @@ impl<R: Read> VarIntReader for R {
     #[verifier::external_body]
     fn read_varint<VI: VarInt>(&mut self) -> (r: Result<VI, std::io::Error>) { unimplemented!() }
 }
+
+// integer_encoding::FixedIntReader (blanket extension of Read), restated over the ghost stream.
+pub trait FixedIntReader {
+    spec fn fr_stream(&self) -> Seq<u8>;
+    spec fn fr_reliable(&self) -> bool;
+    fn read_fixedint<FI: FixedInt>(&mut self) -> (r: Result<FI, std::io::Error>)
+        ensures
+            r matches Ok(v) ==> old(self).fr_stream().len() >= FI::fx_width()
+                && v == FI::fx_dec(old(self).fr_stream().subrange(0, FI::fx_width() as int))
+                && final(self).fr_stream() == old(self).fr_stream().subrange(FI::fx_width() as int, old(self).fr_stream().len() as int),
+            old(self).fr_reliable() && r is Err ==> old(self).fr_stream().len() < FI::fx_width(),
+            final(self).fr_reliable() == old(self).fr_reliable(),
+    ;
+}
+impl<R: Read> FixedIntReader for R {
+    open spec fn fr_stream(&self) -> Seq<u8> { self.rd_stream() }
+    open spec fn fr_reliable(&self) -> bool { self.rd_reliable() }
+    #[verifier::external_body]
+    fn read_fixedint<FI: FixedInt>(&mut self) -> (r: Result<FI, std::io::Error>) { unimplemented!() }
+}
